@@ -1,6 +1,7 @@
 (** C03 — Wire codec round-trip: decode(encode(x)) == x. *)
 From FV Require Import Base.Bytes Codec.Value Codec.Enc Codec.Dec Proofs.RoundTrip.
 From FV Require Import Tie.Tie_FormatCodes Gen.FormatCodes Gen.CodecConsts Codec.Spec.
+From FV Require Import Codec.Composite Codec.CompositeSpec Gen.Composites Tie.Tie_Composites Proofs.CompositeProofs Proofs.CompositeTable.
 Open Scope N_scope.
 
 (** Tie to the source of this run: the regenerated format-code table is the
@@ -66,3 +67,58 @@ Proof.
   exists (match enc_bytes c03_example with Some b => b | None => [] end).
   split; vm_compute; reflexivity.
 Qed.
+
+(** ** the typed layer: composite types (performatives, termini, delivery states, SASL
+    frame bodies, message header and properties, transaction messages)
+
+    [enc_composite] / [dec_composite] (Codec/Composite.v) model the derive macros and
+    [DescribedAccess]: pending nulls and trailing-field elision on the way out; count
+    from the list header, defaults, mandatory fields, `multiple` on the way in.  The
+    table of types ([spec_schemas]) is the specification's, and the table regenerated
+    from the struct definitions of this run is proved equal to it. *)
+Theorem C03_tie_composites : gen_composites = map erase_row spec_composites.
+Proof. exact tie_composites. Qed.
+Print Assumptions C03_tie_composites.
+
+(** For every composite type of the table and every field vector that is admissible
+    for it (well-formed field values of any depth and size, mandatory and defaulted
+    fields not null, a `multiple` field null or a non-empty array): decoding the
+    serializer's bytes followed by anything returns exactly the field vector and the
+    rest - whichever fields are absent, equal to their default or present. *)
+Theorem C03_composite_roundtrip :
+  forall s, In s spec_schemas ->
+  forall vs fuel b rest,
+    fields_ok (s_fields s) vs = true ->
+    Forall (fun v => (depth v <= fuel)%nat) vs -> (1 <= fuel)%nat ->
+    enc_composite Plain s vs = Some b ->
+    dec_composite fuel s (b ++ rest) = Ok (vs, rest).
+Proof. exact table_roundtrip. Qed.
+Print Assumptions C03_composite_roundtrip.
+
+(** the same for any schema a user of the derive macros may write *)
+Theorem C03_any_composite_roundtrip :
+  forall s vs fuel b rest,
+    schema_ok s = true -> fields_ok (s_fields s) vs = true ->
+    Forall (fun v => (depth v <= fuel)%nat) vs -> (1 <= fuel)%nat ->
+    enc_composite Plain s vs = Some b ->
+    dec_composite fuel s (b ++ rest) = Ok (vs, rest).
+Proof. exact composite_roundtrip. Qed.
+Print Assumptions C03_any_composite_roundtrip.
+
+(** a frame body is routed to the one type whose descriptor it carries *)
+Theorem C03_composite_dispatch :
+  forall s, In s spec_schemas -> dispatch spec_schemas (DCode (s_code s)) = Some s.
+Proof. exact table_dispatch. Qed.
+Print Assumptions C03_composite_dispatch.
+
+(** Non-vacuity: an open frame body (defaulted max-frame-size elided, channel-max
+    written, interior nulls, a `multiple` field) meets the hypotheses; its bytes. *)
+Example C03_composite_example :
+  In open_schema spec_schemas /\ fields_ok (s_fields open_schema) open_fields = true /\
+  enc_composite Plain open_schema open_fields =
+    Some [0; 83; 16; 192; 32; 8; 161; 2; 99; 49; 64; 64; 96; 0; 100; 112; 0; 0; 117; 48; 64; 64;
+          224; 13; 2; 179; 0; 0; 0; 1; 120; 0; 0; 0; 2; 121; 122] /\
+  presentation (s_fields open_schema) open_fields
+    [VString [99; 49]; VNull; VUint 4294967295; VUshort 100; VUint 30000; VArray []; VNull;
+     VArray [VSymbol [120]; VSymbol [121; 122]]; VNull] = true.
+Proof. exact open_example. Qed.
